@@ -1,0 +1,168 @@
+//! Verification hooks.
+//!
+//! This module only exists with the `verif-hooks` feature. It lets an
+//! external verification harness observe and steer a few internal steps.
+//! With the feature off, none of this code nor any of its call sites are
+//! compiled.
+
+use std::collections::VecDeque;
+use std::sync::{Arc, Mutex, RwLock};
+use std::sync::atomic::{AtomicUsize, Ordering};
+
+/// The type of a handler invoked at a named point.
+pub type PointFn = dyn Fn(&str) + Send + Sync;
+
+static POINT: RwLock<Option<Arc<PointFn>>> = RwLock::new(None);
+static HITS: AtomicUsize = AtomicUsize::new(0);
+
+/// Installs (or removes) the handler called by [`point`].
+pub fn set_point_handler(handler: Option<Arc<PointFn>>) {
+    *POINT.write().unwrap() = handler;
+}
+
+/// A named point in the code.
+///
+/// Calls the installed handler, if any. Additionally honours the
+/// environment variables `VERIF_EVENT_LOG` (append the name to that file)
+/// and `VERIF_KILL_AT=<prefix>:<n>` (abort the process, without unwinding, at the
+/// n-th hit of a point whose name starts with the prefix).
+pub fn point(name: &str) {
+    let handler = POINT.read().unwrap().clone();
+    if let Some(handler) = handler {
+        handler(name)
+    }
+    env_point(name);
+}
+
+fn env_point(name: &str) {
+    use std::io::Write;
+    use std::sync::OnceLock;
+
+    struct Env {
+        log: Option<String>,
+        kill: Option<(String, usize)>,
+    }
+    static ENV: OnceLock<Env> = OnceLock::new();
+    let env = ENV.get_or_init(|| {
+        Env {
+            log: std::env::var("VERIF_EVENT_LOG").ok(),
+            kill: std::env::var("VERIF_KILL_AT").ok().and_then(|s| {
+                let (name, n) = s.rsplit_once(':')?;
+                Some((name.to_string(), n.parse().ok()?))
+            }),
+        }
+    });
+    if let Some(path) = env.log.as_ref() {
+        if let Ok(mut file) = std::fs::OpenOptions::new()
+            .create(true).append(true).open(path)
+        {
+            let _ = writeln!(file, "{name}");
+        }
+    }
+    if let Some((prefix, n)) = env.kill.as_ref() {
+        if name.starts_with(prefix.as_str()) {
+            let hit = HITS.fetch_add(1, Ordering::SeqCst) + 1;
+            if hit == *n {
+                std::process::abort();
+            }
+        }
+    }
+}
+
+/// The scripted outcome of a validation run.
+#[derive(Clone, Copy, Debug, Eq, PartialEq)]
+pub enum RunOutcome {
+    /// The run proceeds normally.
+    Proceed,
+
+    /// The run fails with a retryable error before doing any work.
+    Retry,
+
+    /// The run fails with a fatal error before doing any work.
+    Fatal,
+}
+
+static OUTCOMES: Mutex<Option<VecDeque<RunOutcome>>> = Mutex::new(None);
+static RUNS: AtomicUsize = AtomicUsize::new(0);
+
+/// Scripts the outcomes of the following validation runs.
+pub fn set_run_outcomes(outcomes: Vec<RunOutcome>) {
+    *OUTCOMES.lock().unwrap() = Some(outcomes.into());
+}
+
+/// Returns the number of validation runs started so far.
+pub fn runs_started() -> usize {
+    RUNS.load(Ordering::SeqCst)
+}
+
+/// Returns the scripted outcome for the next validation run.
+///
+/// Outcomes come from [`set_run_outcomes`] or, if that was never called,
+/// from the environment variable `VERIF_RUN_OUTCOMES`, a comma-separated
+/// list of `ok`, `retry` and `fatal`. Once the script is exhausted, the
+/// last outcome repeats. `VERIF_RUN_LIMIT=<n>` makes the process exit with
+/// status 99 when run number n + 1 is started.
+pub fn next_run_outcome() -> RunOutcome {
+    let started = RUNS.fetch_add(1, Ordering::SeqCst) + 1;
+    if let Some(limit) = std::env::var("VERIF_RUN_LIMIT").ok().and_then(|s| {
+        s.parse::<usize>().ok()
+    }) {
+        if started > limit {
+            std::process::exit(99)
+        }
+    }
+    let mut outcomes = OUTCOMES.lock().unwrap();
+    if outcomes.is_none() {
+        *outcomes = std::env::var("VERIF_RUN_OUTCOMES").ok().map(|s| {
+            s.split(',').map(|item| {
+                match item.trim() {
+                    "retry" => RunOutcome::Retry,
+                    "fatal" => RunOutcome::Fatal,
+                    _ => RunOutcome::Proceed,
+                }
+            }).collect()
+        });
+    }
+    match outcomes.as_mut() {
+        Some(queue) => {
+            if queue.len() > 1 {
+                queue.pop_front().unwrap()
+            }
+            else {
+                queue.front().copied().unwrap_or(RunOutcome::Proceed)
+            }
+        }
+        None => RunOutcome::Proceed
+    }
+}
+
+/// The type of a function choosing a processing order for `n` items.
+pub type PermuteFn = dyn Fn(usize) -> Option<Vec<usize>> + Send + Sync;
+
+static PERMUTE: RwLock<Option<Arc<PermuteFn>>> = RwLock::new(None);
+
+/// Installs (or removes) the function consulted by [`permute`].
+pub fn set_permute_handler(handler: Option<Arc<PermuteFn>>) {
+    *PERMUTE.write().unwrap() = handler;
+}
+
+/// Reorders `items` as the installed handler demands.
+///
+/// The handler returns a permutation of `0..items.len()`; position `i` of
+/// the result receives the item that was at `perm[i]`. Anything that is not
+/// a permutation is ignored.
+pub fn permute<T>(items: &mut Vec<T>) {
+    let handler = PERMUTE.read().unwrap().clone();
+    let Some(handler) = handler else { return };
+    let Some(perm) = handler(items.len()) else { return };
+    let mut seen = vec![false; items.len()];
+    if perm.len() != items.len() { return }
+    for &idx in &perm {
+        if idx >= items.len() || seen[idx] { return }
+        seen[idx] = true;
+    }
+    let mut slots: Vec<Option<T>> = items.drain(..).map(Some).collect();
+    for idx in perm {
+        items.push(slots[idx].take().unwrap());
+    }
+}
